@@ -28,6 +28,7 @@ Shared evaluator lemmas for `RuschmModel/Eval.lean`.
 -/
 import RuschmSpec.Ref
 import RuschmModel.Xform
+import RuschmProofs.SharedLemmas
 namespace Ruschm.Eval
 open Prim
 
@@ -2110,17 +2111,7 @@ theorem toStatement_define (k : Nat) (ld l l' : Loc) (a d : Datum) (s : SynEnv) 
   rw [toStatement]
   simp (config := {decide := true}) only [XM.bind_def, lift, Macro.popProper, if_true, elems_pair, Datum.loc]
 
-theorem toFormals_env (d : Datum) (s : SynEnv) : (toFormals d s).2 = s := by
-  unfold toFormals
-  split
-  · simp only
-    generalize List.find? _ _ = x
-    cases x <;> rfl
-  · simp only
-    generalize List.find? _ _ = x
-    cases x <;> rfl
-  · rfl
-  · rfl
+-- `toFormals_env` lives in `SharedLemmas.lean` (shared with the `Safe*` chain)
 
 end Ruschm.Xform
 
